@@ -9,10 +9,16 @@ use config::*;
 use state::*;
 use utils::*;
 
+mod cfgspec;
 mod checks;
+mod engine;
+mod gen;
+mod model;
+mod norm;
 mod refglob;
 mod refparse;
 mod runner;
+mod scenario;
 mod sim;
 
 use runner::*;
@@ -68,30 +74,32 @@ fn selftest() -> i32 {
 fn run_check(id: &str, tier: Tier) -> i32 {
     let ctx = make_ctx(id, tier);
     let started = Instant::now();
-    let known_lines = vec![];
-    let (parts, rule, level, assumptions): (Vec<PartOutcome>, &str, &str, Vec<&str>) = match id {
-        "C13" => (
-            checks::c13::run_pure(&ctx),
-            "lines from a grammar generator (verb in random case, middles that may contain ':', optional trailing incl. empty, blank runs), a byte-level generator and all strings of length <= 8/10 over {SP ':' 'a' ',' '#'}; non-trivial = reference parse has >= 2 parameters and one of: ':' inside a middle, blank runs, empty trailing, mixed-case verb; distinct by (verb, #params, those four flags)",
-            "exploration",
-            vec!["reference tokenizer (refparse.rs, self-tested) is the IRC grammar of the statement", "TAB/VT/FF/CR/LF inside a line and leading non-ASCII blanks are not judged"],
-        ),
-        "C14" => (
-            checks::c14::run(&ctx),
-            "mask/text pairs: masks derived from the text by wildcarding/lengthening edits, independent random pairs, and all pairs of strings of length <= 4/5 over {a b * ? e-acute}; non-trivial = mask has a wildcard and a literal and a one-edit neighbour of the text answers differently, or a multi-byte pair with a wildcard; distinct by (wildcard skeleton, text length bucket, answer, ascii/multibyte)",
-            "exploration",
-            vec!["reference glob (refglob.rs, textbook DP over Unicode scalar values, self-tested)"],
-        ),
-        _ => {
-            eprintln!("unknown or unimplemented check {}", id);
-            return 2;
-        }
+    let Some(def) = checks::all().into_iter().find(|d| d.id == id) else {
+        eprintln!("unknown or unimplemented check {}", id);
+        return 2;
     };
+    // fixed entries of known_findings.json are informational; known ones are replayed first
+    let mut known_lines = vec![];
+    for k in ctx.known.iter().filter(|k| k.property == id && k.status == "known") {
+        if let Some(rp) = &k.replay {
+            let path = format!("{}/{}", VERIF_DIR, rp);
+            if let Ok(txt) = std::fs::read_to_string(&path) {
+                if let Ok(v) = serde_json::from_str::<serde_json::Value>(&txt) {
+                    let part = v.get("part").and_then(|x| x.as_str()).unwrap_or("");
+                    let input = v.get("input").cloned().unwrap_or(serde_json::Value::Null);
+                    if let Some(Ok(Err(_))) = (def.replay)(part, &input) {
+                        known_lines.push(format!("KNOWN-FINDING: property={} {}", id, k.what));
+                    }
+                }
+            }
+        }
+    }
+    let parts = (def.run)(&ctx);
     let rep = CheckReport {
         parts,
-        rule: rule.to_string(),
-        level: level.to_string(),
-        assumptions: assumptions.into_iter().map(|s| s.to_string()).collect(),
+        rule: def.rule.to_string(),
+        level: def.level.to_string(),
+        assumptions: def.assumptions.iter().map(|s| s.to_string()).collect(),
         known_lines,
         extra: BTreeMap::new(),
     };
@@ -110,11 +118,10 @@ fn run_replay(path: &str) -> i32 {
     let prop = v.get("property").and_then(|x| x.as_str()).unwrap_or("");
     let part = v.get("part").and_then(|x| x.as_str()).unwrap_or("");
     let input = v.get("input").cloned().unwrap_or(serde_json::Value::Null);
-    let r = match prop {
-        "C13" => checks::c13::replay(part, &input),
-        "C14" => checks::c14::replay(part, &input),
-        _ => None,
-    };
+    let r = checks::all()
+        .into_iter()
+        .find(|d| d.id == prop)
+        .and_then(|d| (d.replay)(part, &input));
     match r {
         None => {
             eprintln!("no replay handler for {}/{}", prop, part);
